@@ -37,10 +37,52 @@ func jsonQuote(s string) string {
 	return quoteCP(cp)
 }
 
+// escQuoteCP spells a string with every escape JSON permits: \/ for the solidus, \b and \f, and \u for the first of the other characters.
+func escQuoteCP(c []int) string {
+	var sb strings.Builder
+	sb.WriteByte('"')
+	first := true
+	for _, r := range c {
+		switch {
+		case r == '/':
+			sb.WriteString(`\/`)
+		case r == 8:
+			sb.WriteString(`\b`)
+		case r == 12:
+			sb.WriteString(`\f`)
+		case r == '"':
+			sb.WriteString(`\"`)
+		case r == '\\':
+			sb.WriteString(`\\`)
+		case r == '\n':
+			sb.WriteString(`\n`)
+		case r == '\t':
+			sb.WriteString(`\t`)
+		case r == '\r':
+			sb.WriteString(`\r`)
+		case r < 0x20 || (first && r < 0x10000):
+			sb.WriteString(fmt.Sprintf(`\u%04X`, r))
+			first = false
+		default:
+			sb.WriteRune(rune(r))
+		}
+	}
+	sb.WriteByte('"')
+	return sb.String()
+}
+
+// enumLit is the literal as the layout writes it.
+func enumLit(it Value, layout int) string {
+	if layout == 7 && it.T == "str" {
+		return escQuoteCP(it.C)
+	}
+	return it.JSON()
+}
+
 func enumText(items []Value, layout int) string {
 	lits := make([]string, len(items))
 	for i, it := range items {
-		lits[i] = it.JSON()
+		lits[i] = enumLit(it, layout)
 	}
 	switch layout {
 	case 1, 4, 5, 6:
@@ -159,8 +201,8 @@ func init() {
 					bad("enum", text, fmt.Sprintf("Values() = %d items, err %v", len(vals), err), "")
 				} else {
 					for i, v := range vals {
-						if string(v.Value) != c.Items[i].JSON() {
-							bad("enum", text, fmt.Sprintf("Values()[%d] = %s, source has %s", i, v.Value, c.Items[i].JSON()), "")
+						if string(v.Value) != enumLit(c.Items[i], c.Layout) {
+							bad("enum", text, fmt.Sprintf("Values()[%d] = %s, source has %s", i, v.Value, enumLit(c.Items[i], c.Layout)), "")
 							break
 						}
 					}
@@ -179,7 +221,7 @@ func init() {
 					bad("enum", text, fmt.Sprintf("GetAST() has %d children, err %v", len(ast.Children), err), "")
 				} else {
 					for i, ch := range ast.Children {
-						want := c.Items[i].JSON() // the literal as written
+						want := enumLit(c.Items[i], c.Layout) // the literal as written
 						if ch.Value != want {
 							bad("enum", text, fmt.Sprintf("GetAST child %d = %q want %q", i, ch.Value, want), "")
 							break
